@@ -417,6 +417,27 @@ func Block(desc string, cond func() bool) {
 	}
 }
 
+// AwaitQuiescence parks the calling thread until no other thread can run (every other thread is
+// finished or blocked): the deterministic replacement for "sleep a little and look".
+func AwaitQuiescence(desc string) {
+	x := cur
+	if x == nil || x.cur == nil {
+		return
+	}
+	me := x.cur
+	x.point(&op{desc: "await quiescence: " + desc, enabled: func() bool {
+		for _, u := range x.threads {
+			if u == me || u.done || u.pending == nil {
+				continue
+			}
+			if u.pending.enabled() {
+				return false
+			}
+		}
+		return true
+	}})
+}
+
 // ---------------------------------------------------------------- sync shims
 
 type Locker interface {
